@@ -12,7 +12,7 @@ use tree_sitter::{LogType, Parser};
 pub fn meta(tier: &str) -> CheckMeta {
     CheckMeta {
         id: "C12", level: "exploration",
-        rule: "Enumerated family with a quantitative oracle: for each calibrated zoo language (stmts, arith, jsonish, pstring, lexla) a deterministic generator builds error-free documents of N = 1e3 and 1e4 tokens (thorough: 1e5); single-token edits (one byte of an identifier/number replaced) at EVERY token position for 1e3, every 16th for 1e4, every 256th for 1e5, plus first/last; measured through public means only: `lexed_lookahead` events of the parse logger, bytes handed out by a 64-byte-chunk read callback, and the fraction of new-tree nodes whose Node::id also occurs in the old tree. Fixed thresholds per language (>= 10x the worst value measured on the reference tree, floor 60 tokens / 4 kB; shared-node fraction >= 0.7x the measured value) and the growth rule frac(10N) <= max(2*frac(N), floor/N). A distinct non-trivial case = an (language, N, position) triple whose re-parse reused at least one node.",
+        rule: "Enumerated family with a quantitative oracle: for each calibrated zoo language (stmts, arith, jsonish, pstring, lexla, colm) a deterministic generator builds error-free documents of N = 1e3 and 1e4 tokens (thorough: 1e5); single-token edits (one byte of an identifier/number replaced) at EVERY token position for 1e3, every 16th for 1e4, every 256th for 1e5, plus first/last; measured through public means only: `lexed_lookahead` events of the parse logger, bytes handed out by a 64-byte-chunk read callback, and the fraction of new-tree nodes whose Node::id also occurs in the old tree. Fixed thresholds per language (>= 10x the worst value measured on the reference tree, floor 60 tokens / 4 kB; shared-node fraction >= 0.7x the measured value) and the growth rule frac(10N) <= max(2*frac(N), floor/N). A distinct non-trivial case = an (language, N, position) triple whose re-parse reused at least one node.",
         assumptions: vec!["thresholds were calibrated on the pinned tree with a 10x margin; this is a regression bound, not a proof of sub-linearity".into()],
         exhaustive: true,
         bounds: json!({"tier": tier, "sizes": if tier == "thorough" { vec![1000, 10000, 100000] } else { vec![1000, 10000] }}),
@@ -38,6 +38,8 @@ pub fn gen_doc(lang: &str, n: usize) -> (Vec<u8>, Vec<usize>) {
         // identifier-first statements: the first leaf of every statement is the word token
         "stmts_calls" => { while i * 7 < n { let a = names[i % 5]; edit_at.push(s.len() + a.len() + 1 + names[(i + 1) % 5].len() + 2); s.push_str(&format!("{}({}, {});\n", a, names[(i + 1) % 5], 10 + i % 80)); i += 1; } }
         "lookfar" => { while i * 6 < n { edit_at.push(s.len()); s.push_str(&format!("{} bc-a! a-bc bc\n", names[i % 5])); i += 1; } }
+        // column-dependent tokens (the scanner asks for the column) on every line; the edited token is the first word
+        "colm" => { while i * 8 < n { edit_at.push(s.len()); s.push_str(&format!("{} ! beta @ (gamma ! @)\n", names[i % 5])); i += 1; } }
         "pstring" => { while i * 6 < n { edit_at.push(s.len() + 2); s.push_str(&format!("%({}(b)c) w {}\n", names[i % 5], i % 77)); i += 1; } }
         _ => {}
     }
@@ -90,6 +92,9 @@ pub fn thresholds(lang: &str) -> (usize, usize, f64) {
         // and with a 64-byte read callback that touches nearly all of the text. The bounds for this family are therefore
         // relative: at most N/4 tokens, at least 35% of the nodes shared; the byte bound is not meaningful here.
         "stmts_calls" => (usize::MAX, usize::MAX, 0.35),
+        // column-dependent tokens: every text-changing edit invalidates the column-dependent tokens of the rest of ITS line
+        // (measured: 13-24 tokens, 66 bytes, 0.63-0.64 shared at N = 1e3 and 1e4); nothing beyond the line may be touched
+        "colm" => (60, 4096, 0.45),
         "lexla" => (60, 4096, 0.0), // every node is a leaf below a re-built repeat node: identity sharing is not asserted
         _ => (60, 4096, 0.3),
     }
@@ -102,7 +107,7 @@ pub fn worker(ctx: &Ctx, res: &mut ShardResult) {
     // `indent` is deliberately not in the calibrated set: on the reference tree its zero-width scanner tokens make the
     // re-parse lex everything after the edit (measured: all of N tokens), so no meaningful regression bound exists for it.
     // Likewise `glr`: with several stack versions alive the parser does not reuse nodes at all (measured: 80% of N lexed).
-    for lname in ["stmts", "arith", "jsonish", "pstring", "lexla", "groups", "stmts_calls"] {
+    for lname in ["stmts", "arith", "jsonish", "pstring", "lexla", "groups", "stmts_calls", "colm"] {
         let z = crate::zoo::by_name(zoo_of(lname)).unwrap();
         let info = build_info(&z);
         let (max_lexed_abs, max_bytes_abs, min_shared) = thresholds(lname);
